@@ -111,6 +111,7 @@ let state_summary (s : C.st) =
     (ppc_name s.C.k.C.k_ppc) (dpc_name s.C.k.C.k_dpc) (L.length s.C.k.C.k_pending)
 
 type item = Ev of string * string * C.event | Mark of string * string   (* seq, text *)
+let is_end_mark = ref (fun (_ : string) -> false)
 
 let hidden_candidates (s : C.st) : C.hid list =
   [C.HProc; C.HDie; C.HApi] @ L.map (fun (c, _) -> C.HAcq c) s.C.k.C.k_pending
@@ -137,7 +138,7 @@ let run_scenario (items : item array) =
            | Some s' -> go s' (i + 1) ((seq, Some e, s, s') :: acc)
            | None -> None)
         | Mark (seq, _) ->
-          if no_hidden_enabled s then go s (i + 1) ((seq, None, s, s) :: acc) else None in
+          if no_hidden_enabled s then go s (i + 1) ((seq ^ (match items.(i) with Mark (_, "end") -> "!" | _ -> ""), None, s, s) :: acc) else None in
       match direct with
       | Some r -> Some r
       | None ->
@@ -221,7 +222,7 @@ let run clause_prefix path =
         (match eo with
          | None ->
            (* settle / end marker: nothing hidden is enabled here *)
-           if not (C.quiescent s) then
+           if S.length seq > 0 && seq.[S.length seq - 1] = '!' && not (C.quiescent s) then
              report "future_total" seq ("not_quiescent " ^ state_summary s)
            else if C.ended s && not s.C.t.C.t_protected && C.pending_futures s <> [] then
              report "future_total" seq ("future_pending_after_end calls=" ^
